@@ -154,6 +154,32 @@ def module_file(mod):
     return os.path.join(LEAN, *mod.split(".")) + ".lean"
 
 
+def broken_theorems(path, errs):
+    """Names of the theorems / definitions of `path` that enclose the lines of the error messages."""
+    try:
+        src = open(path).read().splitlines()
+    except OSError:
+        return []
+    decl = []  # (line number, name)
+    for i, l in enumerate(src, 1):
+        m = re.match(r"\s*(?:private\s+)?(?:theorem|lemma|def|example|instance)\s+([^\s:({\[]+)?", l)
+        if m and not l.startswith(" " * 4):
+            decl.append((i, m.group(1) or "example"))
+    out = []
+    for e in errs:
+        m = re.search(r":(\d+):\d+:", e)
+        if not m:
+            continue
+        ln = int(m.group(1))
+        name = None
+        for i, n in decl:
+            if i <= ln:
+                name = n
+        if name and name not in out:
+            out.append(name)
+    return out
+
+
 def imports_of(mod, seen=None):
     """Transitive Gonuts.* imports of a module (from source text)."""
     if seen is None:
@@ -343,7 +369,7 @@ def main():
             for m in failed:
                 # first error lines for that module
                 errs = [l for l in b["lean_log"].splitlines() if l.startswith("error:") and module_file(m).split(LEAN + "/")[-1] in l]
-                broken_obligations.append({"module": m, "errors": errs[:5]})
+                broken_obligations.append({"module": m, "errors": errs[:5], "theorems": broken_theorems(module_file(m), errs)})
         elif not os.path.exists(b["driver"]) or "Driver" in b["failed_modules"]:
             broken_obligations.append({"module": "Driver", "errors": [b["lean_log"][-1500:]]})
     thms, bad, audit_log = ([], [], "")
@@ -353,7 +379,10 @@ def main():
     obligations = len(thms) + len(broken_obligations) + 0
     discharged = len(thms) - len(bad)
     for bo in broken_obligations:
-        violations.append(("proof obligation no longer checks: %s" % bo["module"], bo, False))
+        what = "proof obligation no longer checks: %s" % bo["module"]
+        if bo.get("theorems"):
+            what += " (theorem%s %s)" % ("s" if len(bo["theorems"]) > 1 else "", ", ".join(bo["theorems"][:4]))
+        violations.append((what, bo, False))
     for x in bad:
         violations.append(("theorem depends on a non-permitted axiom or is missing: %s" % x["theorem"], x, False))
     for g in gate:
